@@ -60,15 +60,20 @@ def run(pid, tier):
         nthreads = 16
         rounds = 40 if tier == "quick" else 600
         reps = 1 if tier == "quick" else 4
+        cold = 24 if tier == "quick" else 200   # extra short processes: only the cold-start burst + 1 round
         traces = []
         races = []
         for tname in ("pinned", "tsan"):
             drv = vlib.build_driver("drv_threads", tname, LIB, **BUILD)
-            for rep in range(reps):
+            ncold = cold if tname == "pinned" else max(cold // 6, 3)
+            for rep in range(reps + ncold):
                 prefix = os.path.join(work, "thr-%s-%d" % (tname, rep))
+                nrounds = rounds if tname == "pinned" else max(rounds // 4, 10)
+                if rep >= reps:
+                    nrounds = 1
                 env = dict(os.environ, VERIF_SEED=str(vlib.SEED + rep),
                            TSAN_OPTIONS="halt_on_error=0 exitcode=0 report_signal_unsafe=0")
-                r = subprocess.run([drv, str(nthreads), str(rounds if tname == "pinned" else max(rounds // 4, 10)),
+                r = subprocess.run([drv, str(nthreads), str(nrounds),
                                     prefix], capture_output=True, text=True, timeout=1500, env=env)
                 if r.returncode != 0:
                     raise Broken("drv_threads (%s) failed rc=%s: %s" % (tname, r.returncode, r.stderr[-1500:]))
@@ -77,15 +82,20 @@ def run(pid, tier):
                     races.append(r.stderr[:1500])
                 alone = prefix + "-alone.ndjson"
                 for t in range(nthreads):
-                    cat = prefix + "-cat%02d.ndjson" % t
-                    with open(cat, "w") as o:
+                    # cold-start repetitions of one tier share 16 files (Reset between processes)
+                    cat = (prefix + "-cat%02d.ndjson" % t) if rep < reps else os.path.join(work, "cold-%s-%02d.ndjson" % (tname, t))
+                    with open(cat, "a") as o:
+                        o.write('{"e":"Reset"}\n')
                         with open(alone) as i:
                             shutil.copyfileobj(i, o)
                         with open(prefix + "-t%02d.ndjson" % t) as i:
                             shutil.copyfileobj(i, o)
                         if nrace and t == 0:
                             o.write(json.dumps({"e": "Race", "api": "tsan", "detail": races[-1][:400], "count": nrace}) + "\n")
-                    traces.append(cat)
+                    if cat not in traces:
+                        traces.append(cat)
+                    os.remove(prefix + "-t%02d.ndjson" % t)
+                os.remove(alone)
         events, rejects, _ = vlib.validate(traces, "ThreadsTrace.tla", "ThreadsTrace.cfg", xmx="2g")
         # negative control: corrupt one End result
         neg = None
